@@ -169,7 +169,7 @@ def model_on_variants(tag, seg_table_pairs, variant_terms):
     `seg<i>` / `tbl<i>`) -> values.  All definitions go to the preamble once per shard."""
     pre = PRE
     for i, (seg, tbl) in enumerate(seg_table_pairs):
-        pre += "Definition tbl%d : list (N * list (bytes * N)) := %s.\nDefinition seg%d : bytes := Eval vm_compute in %s.\n" % (i, tbl.term(), i, hexbytes(seg))
+        pre += "Definition tbl%d : list (N * list (bytes * N)) := Eval vm_compute in %s.\nDefinition seg%d : bytes := Eval vm_compute in %s.\n" % (i, tbl.term(), i, hexbytes(seg))
     return vf.coq_eval(tag, pre, variant_terms, shards=min(vf.NCPU, max(1, len(variant_terms))), timeout=1700)
 
 
@@ -284,15 +284,13 @@ def table_tie():
 
 
 def sample_ks(n, ends, tier):
-    if tier == "thorough" or n <= 2600:
+    """byte lengths at which the MODEL is evaluated (the implementation is evaluated at every length)"""
+    if tier == "thorough" or n <= 2000:
         return list(range(n + 1))
-    ks = set(range(0, n + 1, 97)) | {0, 1, n}
+    ks = set(range(0, n + 1, 197)) | {0, 1, n}
     for e in ends:
-        for d in range(-2, 3):
+        for d in (-1, 0, 1, 17, 49):     # around the record end; after the next header; inside the next payload
             if 0 <= e + d <= n:
-                ks.add(e + d)
-        for d in (8, 9, 17, 49):     # header / length-field / digest boundaries of the next record
-            if e + d <= n:
                 ks.add(e + d)
     return sorted(ks)
 
